@@ -130,23 +130,19 @@ theorem runs_and {env : Env} {code A B : List Instr} {c : Ctx} {l : LEnv} {pure 
     obtain ⟨rfl, rfl⟩ := p3 hp
     exact ⟨rfl, rfl⟩
 
+/-- the word `a or b` leaves: the left operand's own word when it is true (the jump skips OP_OR), else OP_OR's 0/1 -/
+def orWord (wa wb : Int) : Int := if (!isU wa && wa != 0) = true then wa else b2i (!isU wb && wb != 0)
+
 theorem runs_or {env : Env} {code A B : List Instr} {c : Ctx} {l : LEnv} {pure : Bool} {wa wb : Int}
-    (ha : Runs env code A c l pure [wa]) (hb : Runs env code B c l pure [wb])
-    (h1 : (!isU wa && wa != 0) = true → wa = 1) :
-    Runs env code (A ++ [.jtrue ((B.length : Int) + 2)] ++ B ++ [.bin .OP_OR]) c l pure
-      [b2i ((!isU wa && wa != 0) || (!isU wb && wb != 0))] := by
+    (ha : Runs env code A c l pure [wa]) (hb : Runs env code B c l pure [wb]) :
+    Runs env code (A ++ [.jtrue ((B.length : Int) + 2)] ++ B ++ [.bin .OP_OR]) c l pure [orWord wa wb] := by
   intro pc st mem its hc hP hlen
   obtain ⟨m1, e1, s1, a1, p1⟩ := ha pc st mem its hc.left.left.left hP hlen
   have hj : code[pc + A.length]? = some (.jtrue ((B.length : Int) + 2)) := hc.left.left.right.head
   rw [len4]
   by_cases hk : (!isU wa && wa != 0) = true
-  · have hw : wa = 1 := h1 hk
-    have hu : isU (1 : Int) = false := by decide
-    refine ⟨m1, e1, Steps.trans s1 (Steps.one (by simpa using hj) ?_), a1, p1⟩
-    subst hw
-    simp only [step, List.singleton_append, hu, jump]
-    simp only [Bool.not_false, b2i, Bool.true_and, Bool.true_or, if_true, bne_iff_ne, ne_eq, Int.reduceEq,
-      not_false_eq_true, decide_true]
+  · refine ⟨m1, e1, Steps.trans s1 (Steps.one (by simpa using hj) ?_), a1, p1⟩
+    simp only [step, List.singleton_append, hk, if_true, jump, orWord]
     congr 2
     omega
   · have hk' : (!isU wa && wa != 0) = false := by simpa using hk
@@ -163,9 +159,9 @@ theorem runs_or {env : Env} {code A B : List Instr} {c : Ctx} {l : LEnv} {pure :
         simp only [List.length_append, List.length_cons, List.length_nil]; omega
       rwa [e] at this
     have s4 : Steps env code ⟨pc + A.length + 1 + B.length, [wb] ++ ([wa] ++ st), m3, its ++ e1 ++ e3⟩
-        ⟨pc + (A.length + 1 + B.length + 1), [b2i ((!isU wa && wa != 0) || (!isU wb && wb != 0))] ++ st, m3, its ++ e1 ++ e3⟩ := by
+        ⟨pc + (A.length + 1 + B.length + 1), [orWord wa wb] ++ st, m3, its ++ e1 ++ e3⟩ := by
       apply Steps.one (by simpa using ho)
-      simp only [step, List.singleton_append, vm_or]
+      simp only [step, List.singleton_append, vm_or, orWord, hk', Bool.false_or, Bool.false_eq_true, if_false]
       congr 2
       omega
     refine ⟨m3, e1 ++ e3, by simpa [List.append_assoc] using Steps.trans s1 (Steps.trans s2 (Steps.trans s3 s4)), a3.trans a1, ?_⟩
@@ -174,26 +170,29 @@ theorem runs_or {env : Env} {code A B : List Instr} {c : Ctx} {l : LEnv} {pure :
     obtain ⟨rfl, rfl⟩ := p3 hp
     exact ⟨rfl, rfl⟩
 
-theorem boolWord_one (blocks : List (Nat × Bytes)) (t : Ty) (v : Val) (h : ValOk t v) (hb : BoolWord v)
-    (hk : (!isU (boolWord blocks t (toVm v)) && boolWord blocks t (toVm v) != 0) = true) :
-    boolWord blocks t (toVm v) = 1 := by
-  cases t with
-  | int =>
-    rcases h with rfl | ⟨i, rfl, hi⟩
-    · simp [boolWord, toVm, isU, isUndef_UNDEF] at hk
-    · rcases hb i rfl with rfl | rfl
-      · simp [boolWord, toVm] at hk
-      · simp [boolWord, toVm]
-  | str =>
-    rcases h with rfl | ⟨s, rfl⟩
-    · simp [boolWord, toVm, vmUn, isU, isUndef_UNDEF] at hk
-    · simp only [boolWord, toVm, strToBool_word] at hk ⊢
-      cases hs : s.isEmpty <;> simp_all [b2i]
-  | bool =>
-    rcases h with rfl | ⟨b, rfl⟩
-    · simp [boolWord, toVm, isU, isUndef_UNDEF] at hk
-    · cases b <;> simp_all [boolWord, toVm, b2i]
-  | flt => exact absurd h (by simp [ValOk])
+/-- the fragment pushes one word representing `v`: exactly, or up to truth for a boolean-typed expression -/
+def RunsV (env : Env) (code frag : List Instr) (c : Ctx) (l : LEnv) (pure : Bool) (t : Ty) (v : Val) : Prop :=
+  ∃ w, Runs env code frag c l pure [w] ∧ WordOK t v w
+
+theorem RunsV.ofExact {env : Env} {code f : List Instr} {c : Ctx} {l : LEnv} {pure : Bool} {t : Ty} {v : Val}
+    (h : Runs env code f c l pure [toVm v]) : RunsV env code f c l pure t v := ⟨_, h, Or.inl rfl⟩
+
+theorem RunsV.exact {env : Env} {code f : List Instr} {c : Ctx} {l : LEnv} {pure : Bool} {t : Ty} {v : Val}
+    (h : RunsV env code f c l pure t v) (ht : t ≠ .bool) : Runs env code f c l pure [toVm v] := by
+  obtain ⟨w, hr, hw⟩ := h
+  rw [← hw.exact ht]; exact hr
+
+theorem RunsV.weaken {env : Env} {code f : List Instr} {c : Ctx} {l : LEnv} {pure : Bool} {t : Ty} {v : Val}
+    (h : RunsV env code f c l true t v) : RunsV env code f c l pure t v := by
+  obtain ⟨w, hr, hw⟩ := h
+  exact ⟨w, hr.weaken, hw⟩
+
+/-- in boolean position (after OP_STR_TO_BOOL when the static type is string) the word is a truth word -/
+theorem RunsV.boolpos {env : Env} {code f : List Instr} {c : Ctx} {l : LEnv} {pure : Bool} {t : Ty} {v : Val}
+    (h : RunsV env code f c l pure t v) (hv : ValOk t v) :
+    ∃ w, Runs env code (f ++ strToBool t) c l pure [w] ∧ TruthWord v w := by
+  obtain ⟨w, hr, hw⟩ := h
+  exact ⟨_, runs_boolpos f t w hr, truthWord_boolpos env.blocks t v w hv hw⟩
 
 theorem popToMarker_spec (ys acc rest : List Int) (h : ∀ y ∈ ys, isU y = false) :
     popToMarker (ys ++ UNDEF :: rest) acc = (ys.reverse ++ acc, rest) := by
@@ -328,52 +327,81 @@ theorem count_ruleset (env : Env) (set : List Nat) :
   generalize env.rules[k]?.getD false = r
   cases r <;> simp [b2i]
 
+/-- `a or b`: the word left is OP_OR's 0/1, or the left operand's own (true) word -/
+theorem or_runsV {env : Env} {code : List Instr} {c : Ctx} {l : LEnv} {pure : Bool} {a b : Expr} {wa wb : Int}
+    (hra : Runs env code (compile c a ++ strToBool (tyOf c a)) c l pure [wa])
+    (hrb : Runs env code (compile c b ++ strToBool (tyOf c b)) c l pure [wb])
+    (htwa : TruthWord (eval env l a) wa) (htwb : TruthWord (eval env l b) wb) :
+    RunsV env code (compile c (.or a b)) c l pure (tyOf c (.or a b)) (eval env l (.or a b)) := by
+  refine ⟨orWord wa wb, by simpa [compile] using runs_or hra hrb, ?_⟩
+  simp only [eval, vOr, tyOf]
+  by_cases hk : (!isU wa && wa != 0) = true
+  · right
+    have ha : asBool (eval env l a) = true := by rw [← tw_truth htwa]; exact hk
+    simp only [Bool.and_eq_true, Bool.not_eq_true', bne_iff_ne, ne_eq] at hk
+    exact ⟨rfl, by simp [ha], by simp [orWord, hk.1, hk.2], by simp [orWord, hk.1, hk.2]⟩
+  · left
+    have hk' : (!isU wa && wa != 0) = false := by simpa using hk
+    have ha : asBool (eval env l a) = false := by rw [← tw_truth htwa]; exact hk'
+    simp only [orWord, hk', Bool.false_eq_true, if_false, toVm, ha, Bool.false_or, tw_truth htwb]
+
 theorem exec_loopfree (env : Env) (henv : EnvOk env) (code : List Instr) :
     ∀ (e : Expr) (c : Ctx) (l : LEnv), loopFree e = true → WF env c l e →
-      Runs env code (compile c e) c l true [toVm (eval env l e)]
+      RunsV env code (compile c e) c l true (tyOf c e) (eval env l e)
   | .int v, c, l, _, hw => by
+    apply RunsV.ofExact
     have hv : isUndef v = false := isUndef_of_ne (by simpa [WF] using hw)
     simp only [compile, hv, eval, toVm]
     exact Runs.push1 _ _ (fun _ _ _ _ _ => rfl)
   | .str s, c, l, _, _ => by
+    apply RunsV.ofExact
     simp only [compile, eval, toVm]
     exact Runs.push1 _ _ (fun _ _ _ _ _ => rfl)
   | .filesize, c, l, _, _ => by
+    apply RunsV.ofExact
     simp only [compile, eval, toVm]
     exact Runs.push1 _ _ (fun _ _ _ _ _ => rfl)
   | .ext n, c, l, _, _ => by
+    apply RunsV.ofExact
     simp only [compile, eval]
     exact Runs.push1 _ _ (fun _ _ _ _ _ => rfl)
   | .var k, c, l, _, hw => by
+    apply RunsV.ofExact
     simp only [compile, eval]
     simp only [WF] at hw
     apply Runs.push1
     intro pc st mem its hP
     simp [step, hP.2.1 k hw.1]
   | .undefOf t, c, l, _, _ => by
+    apply RunsV.ofExact
     simp only [compile, eval, toVm]
     exact Runs.push1 _ _ (fun _ _ _ _ _ => rfl)
   | .tt, c, l, _, _ => by
+    apply RunsV.ofExact
     simp only [compile, eval, toVm]
     exact Runs.push1 _ _ (fun _ _ _ _ _ => rfl)
   | .ff, c, l, _, _ => by
+    apply RunsV.ofExact
     simp only [compile, eval, toVm]
     exact Runs.push1 _ _ (fun _ _ _ _ _ => rfl)
   | .ruleRef k, c, l, _, _ => by
+    apply RunsV.ofExact
     simp only [compile, eval, toVm]
     exact Runs.push1 _ _ (fun _ _ _ _ _ => rfl)
   | .neg e, c, l, hl, hw => by
+    apply RunsV.ofExact
     simp only [WF] at hw
-    have ih := exec_loopfree env henv code e c l (by simpa [loopFree] using hl) hw.1
+    have ih := (exec_loopfree env henv code e c l (by simpa [loopFree] using hl) hw.1).exact (by rw [hw.2.1]; decide)
     have ht := wf_typed env c l e hw.1
     rw [hw.2.1] at ht
     simp only [compile, hw.2.1, eval]
     exact Runs.val1 (vm_neg _ _ ht) (Runs.op (.un .OP_INT_MINUS) _ _ ih (fun _ _ _ _ => rfl))
   | .arith op a b, c, l, hl, hw => by
+    apply RunsV.ofExact
     simp only [WF] at hw
     simp only [loopFree, Bool.and_eq_true] at hl
-    have iha := exec_loopfree env henv code a c l hl.1 hw.1
-    have ihb := exec_loopfree env henv code b c l hl.2 hw.2.1
+    have iha := (exec_loopfree env henv code a c l hl.1 hw.1).exact (by rw [hw.2.2.1]; decide)
+    have ihb := (exec_loopfree env henv code b c l hl.2 hw.2.1).exact (by rw [hw.2.2.2.1]; decide)
     have hta := wf_typed env c l a hw.1
     have htb := wf_typed env c l b hw.2.1
     rw [hw.2.2.1] at hta
@@ -384,35 +412,40 @@ theorem exec_loopfree (env : Env) (henv : EnvOk env) (code : List Instr) :
     simp only [eval]
     exact Runs.val1 (vm_arith _ _ _ _ hta htb) (Runs.op (.bin (arithOp .int op)) _ _ (Runs.seq iha ihb) (fun _ _ _ _ => rfl))
   | .bnot e, c, l, hl, hw => by
+    apply RunsV.ofExact
     simp only [WF] at hw
-    have ih := exec_loopfree env henv code e c l (by simpa [loopFree] using hl) hw.1
+    have ih := (exec_loopfree env henv code e c l (by simpa [loopFree] using hl) hw.1).exact (by rw [hw.2.1]; decide)
     have ht := wf_typed env c l e hw.1
     rw [hw.2.1] at ht
     simp only [compile, eval]
     exact Runs.val1 (vm_bnot _ _ ht) (Runs.op (.un .OP_BITWISE_NOT) _ _ ih (fun _ _ _ _ => rfl))
   | .read k off, c, l, hl, hw => by
+    apply RunsV.ofExact
     simp only [WF] at hw
-    have ih := exec_loopfree env henv code off c l (by simpa [loopFree] using hl) hw.1
+    have ih := (exec_loopfree env henv code off c l (by simpa [loopFree] using hl) hw.1).exact (by rw [hw.2.1]; decide)
     have ht := wf_typed env c l off hw.1
     rw [hw.2.1] at ht
     simp only [compile, eval]
     exact Runs.val1 (vm_read env.blocks henv k _ ht hw.2.2.2) (Runs.op (.un (readOp k)) _ _ ih (fun _ _ _ _ => rfl))
   | .count s, c, l, _, hw => by
+    apply RunsV.ofExact
     simp only [WF] at hw
     have hp := runs_pushStr env code c l true s hw
     simp only [compile, eval, toVm, matchesOf_idx env c l s hw]
     exact Runs.op .count _ _ hp (step_count env _)
   | .found s, c, l, _, hw => by
+    apply RunsV.ofExact
     simp only [WF] at hw
     have hp := runs_pushStr env code c l true s hw
     simp only [compile, eval, toVm, matchesOf_idx env c l s hw]
     exact Runs.op .found _ _ hp (step_found env _)
   | .countIn s lo hi, c, l, hl, hw => by
+    apply RunsV.ofExact
     simp only [WF] at hw
     simp only [loopFree, Bool.and_eq_true] at hl
     obtain ⟨hs, hwlo, hwhi, htlo, hthi⟩ := hw
-    have ihlo := exec_loopfree env henv code lo c l hl.1 hwlo
-    have ihhi := exec_loopfree env henv code hi c l hl.2 hwhi
+    have ihlo := (exec_loopfree env henv code lo c l hl.1 hwlo).exact (by rw [htlo]; decide)
+    have ihhi := (exec_loopfree env henv code hi c l hl.2 hwhi).exact (by rw [hthi]; decide)
     have hlo := wf_typed env c l lo hwlo
     have hhi := wf_typed env c l hi hwhi
     rw [htlo] at hlo
@@ -424,11 +457,12 @@ theorem exec_loopfree (env : Env) (henv : EnvOk env) (code : List Instr) :
     simp only [eval, matchesOf_idx env c l s hs]
     exact Runs.val1 (w_countIn _ _ _ hlo hhi) (Runs.op .countIn _ _ (Runs.seq (Runs.seq ihlo ihhi) hp) (step_countIn env _ _ _))
   | .foundIn s lo hi, c, l, hl, hw => by
+    apply RunsV.ofExact
     simp only [WF] at hw
     simp only [loopFree, Bool.and_eq_true] at hl
     obtain ⟨hs, hwlo, hwhi, htlo, hthi⟩ := hw
-    have ihlo := exec_loopfree env henv code lo c l hl.1 hwlo
-    have ihhi := exec_loopfree env henv code hi c l hl.2 hwhi
+    have ihlo := (exec_loopfree env henv code lo c l hl.1 hwlo).exact (by rw [htlo]; decide)
+    have ihhi := (exec_loopfree env henv code hi c l hl.2 hwhi).exact (by rw [hthi]; decide)
     have hlo := wf_typed env c l lo hwlo
     have hhi := wf_typed env c l hi hwhi
     rw [htlo] at hlo
@@ -440,9 +474,10 @@ theorem exec_loopfree (env : Env) (henv : EnvOk env) (code : List Instr) :
     simp only [eval, matchesOf_idx env c l s hs]
     exact Runs.val1 (w_foundIn _ _ _ hlo hhi) (Runs.op .foundIn _ _ (Runs.seq (Runs.seq ihlo ihhi) hp) (step_foundIn env _ _ _))
   | .foundAt s pos, c, l, hl, hw => by
+    apply RunsV.ofExact
     simp only [WF] at hw
     obtain ⟨hs, hwp, htp⟩ := hw
-    have ih := exec_loopfree env henv code pos c l (by simpa [loopFree] using hl) hwp
+    have ih := (exec_loopfree env henv code pos c l (by simpa [loopFree] using hl) hwp).exact (by rw [htp]; decide)
     have hx := wf_typed env c l pos hwp
     rw [htp] at hx
     have hp := runs_pushStr env code c l true s hs
@@ -451,9 +486,10 @@ theorem exec_loopfree (env : Env) (henv : EnvOk env) (code : List Instr) :
     simp only [eval, matchesOf_idx env c l s hs]
     exact Runs.val1 (w_foundAt _ _ hx) (Runs.op .foundAt _ _ (Runs.seq ih hp) (step_foundAt env _ _))
   | .offset s i, c, l, hl, hw => by
+    apply RunsV.ofExact
     simp only [WF] at hw
     obtain ⟨hs, hwp, htp, _⟩ := hw
-    have ih := exec_loopfree env henv code i c l (by simpa [loopFree] using hl) hwp
+    have ih := (exec_loopfree env henv code i c l (by simpa [loopFree] using hl) hwp).exact (by rw [htp]; decide)
     have hx := wf_typed env c l i hwp
     rw [htp] at hx
     have hp := runs_pushStr env code c l true s hs
@@ -462,9 +498,10 @@ theorem exec_loopfree (env : Env) (henv : EnvOk env) (code : List Instr) :
     simp only [eval, matchesOf_idx env c l s hs]
     exact Runs.val1 (w_offset _ _ hx) (Runs.op .offset _ _ (Runs.seq ih hp) (step_offset env _ _))
   | .length s i, c, l, hl, hw => by
+    apply RunsV.ofExact
     simp only [WF] at hw
     obtain ⟨hs, hwp, htp, _⟩ := hw
-    have ih := exec_loopfree env henv code i c l (by simpa [loopFree] using hl) hwp
+    have ih := (exec_loopfree env henv code i c l (by simpa [loopFree] using hl) hwp).exact (by rw [htp]; decide)
     have hx := wf_typed env c l i hwp
     rw [htp] at hx
     have hp := runs_pushStr env code c l true s hs
@@ -473,22 +510,27 @@ theorem exec_loopfree (env : Env) (henv : EnvOk env) (code : List Instr) :
     simp only [eval, matchesOf_idx env c l s hs]
     exact Runs.val1 (w_length _ _ hx) (Runs.op .length _ _ (Runs.seq ih hp) (step_length env _ _))
   | .cmp op a b, c, l, hl, hw => by
+    apply RunsV.ofExact
     simp only [WF] at hw
     simp only [loopFree, Bool.and_eq_true] at hl
     obtain ⟨hwa, hwb, hty⟩ := hw
-    have iha := exec_loopfree env henv code a c l hl.1 hwa
-    have ihb := exec_loopfree env henv code b c l hl.2 hwb
+    have ra := exec_loopfree env henv code a c l hl.1 hwa
+    have rb := exec_loopfree env henv code b c l hl.2 hwb
     have hta := wf_typed env c l a hwa
     have htb := wf_typed env c l b hwb
     rcases hty with ⟨h1, h2⟩ | ⟨h1, h2⟩
-    · rw [h1] at hta
+    · have iha := ra.exact (by rw [h1]; decide)
+      have ihb := rb.exact (by rw [h2]; decide)
+      rw [h1] at hta
       rw [h2] at htb
       have hcode : compile c (.cmp op a b) = (compile c a ++ compile c b) ++ [.bin (cmpOp .int op)] := by
         simp [compile, h1, h2, conv, numTy]
       rw [hcode]
       simp only [eval]
       exact Runs.val1 (vm_cmp_int _ _ _ _ hta htb) (Runs.op (.bin (cmpOp .int op)) _ _ (Runs.seq iha ihb) (fun _ _ _ _ => rfl))
-    · rw [h1] at hta
+    · have iha := ra.exact (by rw [h1]; decide)
+      have ihb := rb.exact (by rw [h2]; decide)
+      rw [h1] at hta
       rw [h2] at htb
       have hcode : compile c (.cmp op a b) = (compile c a ++ compile c b) ++ [.bin (cmpOp .str op)] := by
         simp [compile, h1, h2, conv, numTy]
@@ -496,11 +538,12 @@ theorem exec_loopfree (env : Env) (henv : EnvOk env) (code : List Instr) :
       simp only [eval]
       exact Runs.val1 (vm_cmp_str _ _ _ _ hta htb) (Runs.op (.bin (cmpOp .str op)) _ _ (Runs.seq iha ihb) (fun _ _ _ _ => rfl))
   | .strop op a b, c, l, hl, hw => by
+    apply RunsV.ofExact
     simp only [WF] at hw
     simp only [loopFree, Bool.and_eq_true] at hl
     obtain ⟨hwa, hwb, h1, h2⟩ := hw
-    have iha := exec_loopfree env henv code a c l hl.1 hwa
-    have ihb := exec_loopfree env henv code b c l hl.2 hwb
+    have iha := (exec_loopfree env henv code a c l hl.1 hwa).exact (by rw [h1]; decide)
+    have ihb := (exec_loopfree env henv code b c l hl.2 hwb).exact (by rw [h2]; decide)
     have hta := wf_typed env c l a hwa
     have htb := wf_typed env c l b hwb
     rw [h1] at hta
@@ -510,9 +553,10 @@ theorem exec_loopfree (env : Env) (henv : EnvOk env) (code : List Instr) :
     simp only [eval]
     exact Runs.val1 (vm_strop _ _ _ _ hta htb) (Runs.op (.bin (strOpc op)) _ _ (Runs.seq iha ihb) (fun _ _ _ _ => rfl))
   | .matches a re nc, c, l, hl, hw => by
+    apply RunsV.ofExact
     simp only [WF] at hw
     obtain ⟨hwa, h1⟩ := hw
-    have iha := exec_loopfree env henv code a c l (by simpa [loopFree] using hl) hwa
+    have iha := (exec_loopfree env henv code a c l (by simpa [loopFree] using hl) hwa).exact (by rw [h1]; decide)
     have hta := wf_typed env c l a hwa
     rw [h1] at hta
     have hcode : compile c (.matches a re nc) = (compile c a ++ [.push (encRe re nc)]) ++ [.matches] := by simp [compile]
@@ -521,47 +565,45 @@ theorem exec_loopfree (env : Env) (henv : EnvOk env) (code : List Instr) :
     have hp : Runs env code [Instr.push (encRe re nc)] c l true [encRe re nc] := Runs.push1 _ _ (fun _ _ _ _ _ => rfl)
     exact Runs.val1 (w_matches re nc _ hta) (Runs.op .matches _ _ (Runs.seq iha hp) (step_matches env _ _))
   | .not e, c, l, hl, hw => by
+    apply RunsV.ofExact
     simp only [WF] at hw
-    have ih := exec_loopfree env henv code e c l (by simpa [loopFree] using hl) hw
     have ht := wf_typed env c l e hw
+    obtain ⟨w, hr, htw⟩ := (exec_loopfree env henv code e c l (by simpa [loopFree] using hl) hw).boolpos ht
     have hcode : compile c (.not e) = (compile c e ++ strToBool (tyOf c e)) ++ [.un .OP_NOT] := by simp [compile]
     rw [hcode]
     simp only [eval]
-    exact Runs.val1 (vm_not env.blocks _ _ ht) (Runs.op (.un .OP_NOT) _ _ (runs_boolpos _ _ _ ih) (fun _ _ _ _ => rfl))
+    exact Runs.val1 (tw_not _ htw) (Runs.op (.un .OP_NOT) _ _ hr (fun _ _ _ _ => rfl))
   | .defined e, c, l, hl, hw => by
+    apply RunsV.ofExact
     simp only [WF] at hw
-    have ih := exec_loopfree env henv code e c l (by simpa [loopFree] using hl) hw
     have ht := wf_typed env c l e hw
+    obtain ⟨w, hr, htw⟩ := (exec_loopfree env henv code e c l (by simpa [loopFree] using hl) hw).boolpos ht
     have hcode : compile c (.defined e) = (compile c e ++ strToBool (tyOf c e)) ++ [.un .OP_DEFINED] := by simp [compile]
     rw [hcode]
     simp only [eval]
-    exact Runs.val1 (vm_defined env.blocks _ _ ht) (Runs.op (.un .OP_DEFINED) _ _ (runs_boolpos _ _ _ ih) (fun _ _ _ _ => rfl))
+    exact Runs.val1 (tw_defined _ htw) (Runs.op (.un .OP_DEFINED) _ _ hr (fun _ _ _ _ => rfl))
   | .and a b, c, l, hl, hw => by
+    apply RunsV.ofExact
     simp only [WF] at hw
     simp only [loopFree, Bool.and_eq_true] at hl
     obtain ⟨hwa, hwb⟩ := hw
-    have iha := exec_loopfree env henv code a c l hl.1 hwa
-    have ihb := exec_loopfree env henv code b c l hl.2 hwb
-    have hta := wf_typed env c l a hwa
-    have htb := wf_typed env c l b hwb
+    obtain ⟨wa, hra, htwa⟩ := (exec_loopfree env henv code a c l hl.1 hwa).boolpos (wf_typed env c l a hwa)
+    obtain ⟨wb, hrb, htwb⟩ := (exec_loopfree env henv code b c l hl.2 hwb).boolpos (wf_typed env c l b hwb)
     simp only [compile, eval, vAnd, toVm]
-    rw [← word_truth env.blocks _ _ hta, ← word_truth env.blocks _ _ htb]
-    exact runs_and (runs_boolpos _ _ _ iha) (runs_boolpos _ _ _ ihb)
+    rw [← tw_truth htwa, ← tw_truth htwb]
+    exact runs_and hra hrb
   | .or a b, c, l, hl, hw => by
     simp only [WF] at hw
     simp only [loopFree, Bool.and_eq_true] at hl
-    obtain ⟨hwa, hwb, hbw⟩ := hw
-    have iha := exec_loopfree env henv code a c l hl.1 hwa
-    have ihb := exec_loopfree env henv code b c l hl.2 hwb
-    have hta := wf_typed env c l a hwa
-    have htb := wf_typed env c l b hwb
-    simp only [compile, eval, vOr, toVm]
-    rw [← word_truth env.blocks _ _ hta, ← word_truth env.blocks _ _ htb]
-    exact runs_or (runs_boolpos _ _ _ iha) (runs_boolpos _ _ _ ihb) (boolWord_one env.blocks _ _ hta hbw)
+    obtain ⟨hwa, hwb⟩ := hw
+    obtain ⟨wa, hra, htwa⟩ := (exec_loopfree env henv code a c l hl.1 hwa).boolpos (wf_typed env c l a hwa)
+    obtain ⟨wb, hrb, htwb⟩ := (exec_loopfree env henv code b c l hl.2 hwb).boolpos (wf_typed env c l b hwb)
+    exact or_runsV hra hrb htwa htwb
   | .ofStr q qe set, c, l, hl, hw => by
+    apply RunsV.ofExact
     simp only [WF] at hw
     have hq := runs_quant (env := env) (code := code) (c := c) (l := l) (pure := true) q (compile c qe) (toVm (eval env l qe))
-      (fun h => exec_loopfree env henv code qe c l (by simpa [loopFree, h] using hl) (hw h).1)
+      (fun h => (exec_loopfree env henv code qe c l (by simpa [loopFree, h] using hl) (hw h).1).exact (by rw [(hw h).2.1]; decide))
     have hm : Runs env code [Instr.pushU] c l true [UNDEF] := Runs.push1 _ _ (fun _ _ _ _ _ => rfl)
     have hs := runs_strset (env := env) (code := code) (c := c) (l := l) (pure := true) set
     have hcode : compile c (.ofStr q qe set) =
@@ -577,9 +619,10 @@ theorem exec_loopfree (env : Env) (henv : EnvOk env) (code : List Instr) :
     show ofResult _ (set.countP (strFound env)) _ = _
     exact w_of q _ _ _ (List.countP_le_length) (fun h => ⟨by have := wf_typed env c l qe (hw h).1; rwa [(hw h).2.1] at this, (hw h).2.2⟩)
   | .ofRules q qe set, c, l, hl, hw => by
+    apply RunsV.ofExact
     simp only [WF] at hw
     have hq := runs_quant (env := env) (code := code) (c := c) (l := l) (pure := true) q (compile c qe) (toVm (eval env l qe))
-      (fun h => exec_loopfree env henv code qe c l (by simpa [loopFree, h] using hl) (hw h).1)
+      (fun h => (exec_loopfree env henv code qe c l (by simpa [loopFree, h] using hl) (hw h).1).exact (by rw [(hw h).2.1]; decide))
     have hm : Runs env code [Instr.pushU] c l true [UNDEF] := Runs.push1 _ _ (fun _ _ _ _ _ => rfl)
     have hs := runs_ruleset (env := env) (code := code) (c := c) (l := l) (pure := true) set
     have hcode : compile c (.ofRules q qe set) =
@@ -595,15 +638,16 @@ theorem exec_loopfree (env : Env) (henv : EnvOk env) (code : List Instr) :
     rw [count_ruleset env set]
     exact w_of q _ _ _ (List.countP_le_length) (fun h => ⟨by have := wf_typed env c l qe (hw h).1; rwa [(hw h).2.1] at this, (hw h).2.2⟩)
   | .ofStrIn q qe set lo hi, c, l, hl, hw => by
+    apply RunsV.ofExact
     simp only [WF] at hw
     simp only [loopFree, Bool.and_eq_true] at hl
     obtain ⟨hwq, hwlo, hwhi, htlo, hthi⟩ := hw
     have hq := runs_quant (env := env) (code := code) (c := c) (l := l) (pure := true) q (compile c qe) (toVm (eval env l qe))
-      (fun h => exec_loopfree env henv code qe c l (by simpa [h] using hl.1.1) (hwq h).1)
+      (fun h => (exec_loopfree env henv code qe c l (by simpa [h] using hl.1.1) (hwq h).1).exact (by rw [(hwq h).2.1]; decide))
     have hm : Runs env code [Instr.pushU] c l true [UNDEF] := Runs.push1 _ _ (fun _ _ _ _ _ => rfl)
     have hs := runs_strset (env := env) (code := code) (c := c) (l := l) (pure := true) set
-    have ihlo := exec_loopfree env henv code lo c l hl.1.2 hwlo
-    have ihhi := exec_loopfree env henv code hi c l hl.2 hwhi
+    have ihlo := (exec_loopfree env henv code lo c l hl.1.2 hwlo).exact (by rw [htlo]; decide)
+    have ihhi := (exec_loopfree env henv code hi c l hl.2 hwhi).exact (by rw [hthi]; decide)
     have hlo := wf_typed env c l lo hwlo
     have hhi := wf_typed env c l hi hwhi
     rw [htlo] at hlo
@@ -625,14 +669,15 @@ theorem exec_loopfree (env : Env) (henv : EnvOk env) (code : List Instr) :
         rw [count_strset env set (fun ms => ms.any (inRange a b))]
         exact w_of q _ _ _ (List.countP_le_length) (fun h => ⟨by have := wf_typed env c l qe (hwq h).1; rwa [(hwq h).2.1] at this, (hwq h).2.2⟩)
   | .ofStrAt q qe set pos, c, l, hl, hw => by
+    apply RunsV.ofExact
     simp only [WF] at hw
     simp only [loopFree, Bool.and_eq_true] at hl
     obtain ⟨hwq, hwp, htp⟩ := hw
     have hq := runs_quant (env := env) (code := code) (c := c) (l := l) (pure := true) q (compile c qe) (toVm (eval env l qe))
-      (fun h => exec_loopfree env henv code qe c l (by simpa [h] using hl.1) (hwq h).1)
+      (fun h => (exec_loopfree env henv code qe c l (by simpa [h] using hl.1) (hwq h).1).exact (by rw [(hwq h).2.1]; decide))
     have hm : Runs env code [Instr.pushU] c l true [UNDEF] := Runs.push1 _ _ (fun _ _ _ _ _ => rfl)
     have hs := runs_strset (env := env) (code := code) (c := c) (l := l) (pure := true) set
-    have ihp := exec_loopfree env henv code pos c l hl.2 hwp
+    have ihp := (exec_loopfree env henv code pos c l hl.2 hwp).exact (by rw [htp]; decide)
     have hp := wf_typed env c l pos hwp
     rw [htp] at hp
     have hcode : compile c (.ofStrAt q qe set pos) =
